@@ -39,7 +39,30 @@ type spxInst struct {
 	srv   *harness.Server
 	cl    *harness.Client
 	start func()
-	// after the explored phase: canonical teardown + observation
+	env   []*harness.EnvThread
+	mark  int // client role: frames received from the client before the explored phase
+}
+
+func (x *spxInst) startEnv(ts ...*harness.EnvThread) {
+	x.env = append(x.env, ts...)
+	if x.srv != nil {
+		x.srv.StartEnv(ts...)
+	} else {
+		x.cl.StartEnv(ts...)
+	}
+}
+
+// step returns the executed environment step of the given kind whose bytes start with the frame f (inject) or whose call is idx (finish).
+func (x *spxInst) steps(kind string) []*harness.EnvStep {
+	var out []*harness.EnvStep
+	for _, t := range x.env {
+		for i := range t.Steps {
+			if t.Steps[i].Kind == kind {
+				out = append(out, &t.Steps[i])
+			}
+		}
+	}
+	return out
 }
 
 type spxScenario struct {
@@ -81,7 +104,7 @@ func serverScenarios() []*spxScenario {
 			h := c19Server(harness.ServerOpts{})
 			x := &spxInst{s: h.S, srv: h}
 			x.start = func() {
-				h.StartEnv(
+				x.startEnv(
 					&harness.EnvThread{Name: "peer", Steps: []harness.EnvStep{
 						{Kind: "inject", Bytes: frames(c19Req(h, 3, true))},
 						{Kind: "inject", Bytes: frames(peer.Settings(peer.Setting{ID: 1, Val: 100}, peer.Setting{ID: 4, Val: 70000}, peer.Setting{ID: 5, Val: 20000}))},
@@ -99,7 +122,7 @@ func serverScenarios() []*spxScenario {
 			h := c19Server(harness.ServerOpts{})
 			x := &spxInst{s: h.S, srv: h}
 			x.start = func() {
-				h.StartEnv(
+				x.startEnv(
 					&harness.EnvThread{Name: "peer", Steps: []harness.EnvStep{
 						{Kind: "inject", Bytes: frames(c19Req(h, 3, false), peer.Data(3, []byte("abc"), true, -1))},
 						{Kind: "inject", Bytes: frames(peer.RstStream(3, 8))},
@@ -117,7 +140,7 @@ func serverScenarios() []*spxScenario {
 			h := c19Server(harness.ServerOpts{PingInterval: time.Second, IdleTimeout: 3 * time.Second, ReadTimeout: 2 * time.Second})
 			x := &spxInst{s: h.S, srv: h}
 			x.start = func() {
-				h.StartEnv(
+				x.startEnv(
 					&harness.EnvThread{Name: "peer", Steps: []harness.EnvStep{
 						{Kind: "inject", Bytes: frames(c19Req(h, 3, false))},
 						{Kind: "peerclose"},
@@ -135,7 +158,7 @@ func serverScenarios() []*spxScenario {
 			x := &spxInst{s: h.S, srv: h}
 			half := frames(c19Req(h, 7, true))
 			x.start = func() {
-				h.StartEnv(
+				x.startEnv(
 					&harness.EnvThread{Name: "peer", Steps: []harness.EnvStep{
 						{Kind: "inject", Bytes: frames(c19Req(h, 3, true))},
 						{Kind: "inject", Bytes: frames(peer.WindowUpdate(3, 3))},
@@ -180,7 +203,7 @@ func clientScenarios() []*spxScenario {
 				sc := h.Conns[0]
 				h.SpawnCaller(c19Spec("a", []byte("body-a")))
 				h.SpawnCaller(c19Spec("b", nil))
-				h.StartEnv(
+				x.startEnv(
 					&harness.EnvThread{Name: "server", Steps: []harness.EnvStep{
 						{Kind: "inject", WaitHeaders: 1, Bytes: c19Resp(sc, 3, "first")},
 						{Kind: "inject", WaitHeaders: 2, Bytes: c19Resp(sc, 5, "second")},
@@ -197,7 +220,7 @@ func clientScenarios() []*spxScenario {
 				sc := h.Conns[0]
 				h.SpawnCaller(c19Spec("a", []byte("body-a")))
 				resp := sc.RespFrames(3, []ref.Field{{Name: ":status", Value: "200"}, {Name: "x-common", Value: "the-same-response-value"}}, nil, nil, [][]byte{[]byte("late")}, -1)
-				h.StartEnv(
+				x.startEnv(
 					&harness.EnvThread{Name: "server", Steps: []harness.EnvStep{
 						{Kind: "inject", WaitHeaders: 1, Bytes: frames(resp[0])},
 						{Kind: "inject", Bytes: frames(peer.Settings(peer.Setting{ID: 1, Val: 0}, peer.Setting{ID: 4, Val: 70000}, peer.Setting{ID: 3, Val: 10}))},
@@ -214,7 +237,7 @@ func clientScenarios() []*spxScenario {
 			x := &spxInst{s: h.S, cl: h}
 			x.start = func() {
 				h.SpawnCaller(c19Spec("a", nil))
-				h.StartEnv(
+				x.startEnv(
 					&harness.EnvThread{Name: "server", Steps: []harness.EnvStep{
 						{Kind: "inject", WaitHeaders: 1, Bytes: frames(peer.GoAway(1, 0, "bye"))},
 						{Kind: "inject", Bytes: frames(peer.Ping(false, [8]byte{7}))},
@@ -231,7 +254,7 @@ func clientScenarios() []*spxScenario {
 			x.start = func() {
 				h.SpawnCaller(harness.ReqSpec{Tag: "up", Method: "POST", Path: "/up", Stream: [][]byte{[]byte("abcdef"), []byte("ghij")}, Declared: -1})
 				h.SpawnCaller(c19Spec("b", []byte("0123456789")))
-				h.StartEnv(
+				x.startEnv(
 					&harness.EnvThread{Name: "server", Steps: []harness.EnvStep{
 						{Kind: "inject", WaitHeaders: 1, Bytes: frames(peer.WindowUpdate(3, 3))},
 						{Kind: "inject", Bytes: frames(peer.Settings(peer.Setting{ID: 4, Val: 9}))},
